@@ -186,8 +186,9 @@ def oracle_wrapper(case, r):
             if sv['labels'] != (['a', 'b'] if spec2 else ['v']):
                 probs.append('LanczosGroundState on the wrapped operator: labels %s' % sv['labels'])
             V, dk, ratios = krylov_basis(Ms, x[I], sv['N'])
-            if dk == sv['N']:
-                rp, _ = ritz_lanczos(Ms, x[I], sv['N'], sv['E'], xs[I], cond_tol(sc, ratios, sv['N']), sc)
+            loss = plain_lanczos_loss(Ms, x[I], sv['N'])
+            if dk == sv['N'] and loss < 1e-4:
+                rp, _ = ritz_lanczos(Ms, x[I], sv['N'], sv['E'], xs[I], max(cond_tol(sc, ratios, sv['N']), 10 * sc * loss), sc)
                 probs += ['LanczosGroundState on the wrapped operator (%s-leg vectors): %s' % (2 if spec2 else 1, p) for p in rp]
     return probs, known, {'kinds': kinds, 'dim': len(I), 'two': bool(spec2)}
 
@@ -473,6 +474,51 @@ def krylov_basis(Ms, v0, N):
     return np.array(V).T, len(V), ratios
 
 
+def plain_lanczos_loss(Ms, v0, N):
+    """loss of orthogonality max |<v_i|v_j> - delta_ij| of the three-term recurrence WITHOUT re-orthogonalisation in double precision on this
+    input (dense transcription of the textbook algorithm): converged Ritz values (outliers of the spectrum) destroy the orthogonality of the
+    later vectors; only used to widen tolerances, never to judge"""
+    nr = np.linalg.norm(v0)
+    if nr == 0 or N <= 1:
+        return 0.0
+    scale = max(1e-300, np.linalg.norm(Ms, 2))
+    V = [v0 / nr]
+    beta = 0.0
+    for k in range(N - 1):
+        w = Ms @ V[-1]
+        a = np.vdot(V[-1], w).real
+        w = w - a * V[-1]
+        if k > 0:
+            w = w - beta * V[-2]
+        beta = np.linalg.norm(w)
+        if beta < 1e-14 * scale:
+            break
+        V.append(w / beta)
+    Vm = np.array(V).T
+    return float(np.max(np.abs(Vm.conj().T @ Vm - np.eye(Vm.shape[1]))))
+
+
+def plain_arnoldi_loss(Ms, v0, N):
+    """loss of orthogonality of the textbook Arnoldi iteration with ONE pass of modified Gram-Schmidt in double precision on this input
+    (errors grow by |A| / h[k+1,k] per step: operators with a shift that is large against the spread of the spectrum lose it within ~15
+    steps); only used to widen tolerances, never to judge"""
+    nr = np.linalg.norm(v0)
+    if nr == 0 or N <= 1:
+        return 0.0
+    scale = max(1e-300, np.linalg.norm(Ms, 2))
+    V = [v0 / nr]
+    for k in range(N - 1):
+        w = Ms @ V[-1]
+        for q in V:
+            w = w - np.vdot(q, w) * q
+        nw = np.linalg.norm(w)
+        if nw < 1e-14 * scale:
+            break
+        V.append(w / nw)
+    Vm = np.array(V).T
+    return float(np.max(np.abs(Vm.conj().T @ Vm - np.eye(Vm.shape[1]))))
+
+
 def ritz_lanczos(Ms, v0s, N, E_run, x, tol, scale):
     """E_run must be the smallest Ritz value of Ms on K_N(v0), x a normalised vector of K_N fulfilling the Galerkin condition"""
     probs = []
@@ -538,12 +584,16 @@ def ritz_arnoldi(Ms, v0s, N, which_key, E_run, xs, tol, scale, herm):
         elif gal > max(1e-6 * scale, 1e3 * tol):
             probs.append('Ritz pair %d violates the Galerkin condition: |V^dagger (H x - theta x)| = %.3e' % (i, gal))
     if herm and k > 1 and not probs:
-        gaps = [min([abs(E_run[i] - z) for z in th if abs(z - E_run[i]) > 1e-9 * scale] or [scale]) for i in range(k)]
-        gtol = max(1e-6, 1e-11 * scale / max(1e-300, min(gaps)))
+        # eigenvectors of the (numerically Hermitian) Hessenberg matrix from a general eigensolver are orthogonal up to eps / gap:
+        # judged only when the requested Ritz values are separated from all others
+        ths = sorted(th.real)
+        gap = min([b - a for a, b in zip(ths, ths[1:])] or [scale])
+        gtol = max(1e-6, 1e-10 * scale / max(1e-300, gap), 1e3 * tol / scale)     # (tol: conditioning of the Krylov basis)
         X = np.array(xs[:k]).T
         gd = np.linalg.norm(X.conj().T @ X - np.eye(k))
-        margin = max(margin, gd / gtol)
-        if gd > gtol:
+        if gap > 1e-6 * scale:
+            margin = max(margin, gd / gtol)
+        if gap > 1e-6 * scale and gd > gtol:
             probs.append('Ritz vectors of a Hermitian operator not orthonormal: |X^dagger X - 1| = %.3e' % gd)
     return probs, margin
 
